@@ -15,19 +15,20 @@ namespace Hive.C12a.Shrink
 
 open Hive.C12a
 
-/-- `Options`: ratio = `rnum / rden` (`rden > 0`), count threshold. -/
+/-- `Options`: ratio = `rnum / rden` (`rden > 0`; `rnum` may be negative or huge), count threshold
+(an `int`: 0 = disabled, negative and `math.MaxInt` are legal values). -/
 structure Opts where
-  rnum : Nat
+  rnum : Int
   rden : Nat
-  count : Nat
+  count : Int
 deriving Repr, DecidableEq
 
 /-- `shouldShrink()` with its early returns. -/
 def shouldShrink (o : Opts) (deleted size : Nat) : Bool :=
   if ¬ (o.rnum ≠ 0 ∨ o.count ≠ 0) then false
   else if o.rnum ≠ 0 ∧ size = 0 then false
-  else if o.rnum ≠ 0 ∧ deleted * o.rden < o.rnum * size then false
-  else if o.count ≠ 0 ∧ deleted < o.count then false
+  else if o.rnum ≠ 0 ∧ ((deleted * o.rden : Nat) : Int) < o.rnum * (size : Int) then false
+  else if o.count ≠ 0 ∧ (deleted : Int) < o.count then false
   else true
 
 structure St where
@@ -200,8 +201,9 @@ def parseOp (m : AL Nat) : List String → Option Op
 
 def stepLine (d : DSt) (toks : List String) : DSt × String :=
   match toks with
+  | ["new", "default"] => ({ o := ⟨10, 1, 100⟩, s := init }, "ok")   -- `New()` without options
   | ["new", a, b, c] =>
-    match a.toNat?, b.toNat?, c.toNat? with
+    match a.toInt?, b.toNat?, c.toInt? with
     | some a, some b, some c => if b = 0 then (d, "bad-op") else ({ o := ⟨a, b, c⟩, s := init }, "ok")
     | _, _, _ => (d, "bad-op")
   | ["deleted"] => (d, toString d.s.deleted)   -- white-box observation of `deletedKeys`
